@@ -259,6 +259,8 @@ def t4_literals(ctx):
     BR = "ethnum::uint::api::<impl ethnum::U256>::to_be_bytes(($1 as PushIC).0)"
     LZ = "Iterator::count(Iterator::take_while(%s, closure[]))" % BR
     want = ["array(OPCODE_PUSHIC)", "array(SubWithOverflow(32, (%s as u8)).0)" % LZ, "std::array::<impl std::ops::Index<I> for [T; N]>::index(%s, RangeFrom::RangeFrom{start: %s})" % (BR, LZ)]
+    if len(ws) == 3 and ws[1] == "array((SubWithOverflow(32, %s).0 as u8))" % LZ:
+        ws[1] = want[1]          # (32 − lz) as u8  ≡  32 − (lz as u8): lz ≤ 32
     r.check(ws == want or (len(ws) == 3 and ws[:2] == want[:2] and ws[2].startswith("std::array::<impl std::ops::Index<I> for [T; N]>::index(%s, " % BR) and LZ in ws[2]), "PushIC/encode",
             "opcode, 32 − leading zero bytes, the remaining bytes", "PushIC encode writes %s" % ws)
     d = [v for k, v in dec.items() if any(dict(x[1][3])["0"][2] == "PushIC" for x in v["built"])]
@@ -279,7 +281,8 @@ def t4_literals(ctx):
                 r.check(not any(o in f.reach for o in okb), "PushIC/%s=>err" % nm, "%s ⇒ Err(InvalidVarint)" % nm, "a %s PushIC is still decoded" % nm)
         bb, agg = d["built"][0]
         pay = sig(q.novers(dict(dict(agg[3])["0"][3])["0"]))
-        r.check(pay == "ethnum::uint::api::<impl ethnum::U256>::from_le_bytes(buf#2)", "PushIC/value", "value = from_le_bytes(reversed prefix)", "PushIC value = %s" % pay)
+        import re as _re
+        r.check(bool(_re.fullmatch(r"ethnum::uint::api::<impl ethnum::U256>::from_le_bytes\([A-Za-z_][A-Za-z_0-9]*(#\d+)?\)", pay)), "PushIC/value", "value = from_le_bytes(32-byte buffer)", "PushIC value = %s" % pay)
         rev = [cb for cb, ce in q.call_exprs(db, "reverse") if cb in d["reach"]]
         r.check(len(rev) == 1, "PushIC/reverse", "prefix reversed (big-endian on the wire)", "%d reversals" % len(rev))
 
@@ -299,13 +302,16 @@ def t6_whole_input(ctx):
     r = ctx.rule("T6", "from_bytes loops until the input is empty, `?` on every decode; to_bytes = concat(encode(op)); hash = hash_single(to_bytes()); from_ops/to_ops identity")
     b = ctx.body("melvm::Covenant::from_bytes", r)
     oks = [bb for bb, e in q.result_blocks(b)["Ok"]]
-    emp = [(e, cb) for cb, e in q.call_exprs(b, "is_empty") if sig(q.novers(e)) == "core::slice::<impl [T]>::is_empty(b)"]
-    r.check(len(emp) == 1, "loop-cond", "loops on !b.is_empty()", "loop conditions: %s" % [sig(x[0]) for x in emp])
+    # the cursor is whatever decode reads from (the parameter itself or a local copy of it); names do not matter
+    dc = q.call_exprs(b, "OpCode::decode")
+    cur = sig(q.novers(mir.strip(dc[0][1][2][0]))) if len(dc) == 1 else None
+    cur_ok = cur is not None and (cur in ("b", "$1") or any(sig(q.novers(mir.strip(d[1]))) in ("$1", "b") for d in q.var_def_exprs(b, cur)))
+    r.check(len(dc) == 1 and cur_ok, "decode-call", "decode(&mut cursor over the input)", "decode calls: %s" % [sig(x[1]) for x in dc])
+    emp = [(e, cb) for cb, e in q.call_exprs(b, "is_empty") if cur is not None and sig(q.novers(mir.strip(e[2][0]))) == cur]
+    r.check(len(emp) == 1, "loop-cond", "loops on !cursor.is_empty()", "loop conditions: %s" % [sig(x[0]) for x in emp])
     if emp:
         f = force(b, {emp[0][0]: 0})
         r.check(not any(o in f.reach for o in oks), "ok-only-when-empty", "Ok only once the input is exhausted", "Ok is reachable with input left over")
-    dc = q.call_exprs(b, "OpCode::decode")
-    r.check(len(dc) == 1 and sig(q.novers(dc[0][1])) == "OpCode::decode(b)", "decode-call", "decode(&mut b)", "decode calls: %s" % [sig(x[1]) for x in dc])
     for cb, e in dc:
         f = force(b, {e: V(1)})
         after = f.reach_from(cb)
@@ -313,16 +319,32 @@ def t6_whole_input(ctx):
         latches = [l for h, bl, ls in loops for l in ls]
         r.check(not any(o in after for o in oks) and not any(l in after for l in latches), "error-propagates", "a decode error fails from_bytes", "a decode error is swallowed")
     pu = q.call_exprs(b, "Vec::push")
-    r.check(len(pu) == 1 and sig(q.novers(pu[0][1])) == "Vec::push(opcodes, try(OpCode::decode(b)))", "collects", "every decoded op is kept in order", "pushes: %s" % [sig(x[1]) for x in pu])
+    acc = sig(q.novers(mir.strip(pu[0][1][2][0]))) if len(pu) == 1 else None
+    r.check(len(pu) == 1 and cur is not None and sig(q.novers(pu[0][1][2][1])) == "try(OpCode::decode(%s))" % cur, "collects", "every decoded op is kept in order", "pushes: %s" % [sig(x[1]) for x in pu])
     for bb, e in q.result_blocks(b)["Ok"]:
-        r.check(sig(q.novers(dict(e[3])["0"])) in ("Covenant::Covenant{0: opcodes}",), "result", "Covenant(opcodes)", "from_bytes returns %s" % sig(dict(e[3])["0"]))
+        got = sig(q.novers(dict(e[3])["0"]))
+        r.check(acc is not None and got in ("Covenant::Covenant{0: %s}" % acc, "Covenant::Covenant{0: Arc::new(%s)}" % acc), "result", "Covenant(collected ops)", "from_bytes returns %s" % got)
     tb = ctx.body("melvm::Covenant::to_bytes", r)
-    loops = q.loop_with_source(tb, lambda s: True)
-    r.check([sig(l[3]) for l in loops] in (["$1.0"], ["core::slice::<impl [T]>::iter($1.0)"]), "to_bytes/loop", "loops over every op", "to_bytes loops over %s" % [sig(l[3]) for l in loops])
-    en = q.call_exprs(tb, "OpCode::encode")
-    r.check(len(en) == 1 and sig(q.novers(en[0][1])) == "OpCode::encode(elem($1.0), out)", "to_bytes/encode", "encode(op, &mut out)", "encode calls: %s" % [sig(x[1]) for x in en])
+    # encode(op, &mut buffer) for every op of self.0 in order — as a `for` loop or as for_each over the same sequence; the buffer is what is returned
+    en = [(c, bi, e) for c in ctx.prog.all_nested(tb) for bi, e in q.call_exprs(c, "OpCode::encode")]
+    r.check(len(en) == 1, "to_bytes/encode", "one encode call per op", "encode calls: %s" % [sig(x[2]) for x in en])
+    SEQ = ("$1.0", "core::slice::<impl [T]>::iter($1.0)")
+    buf = None
+    for c, bi, e in en:
+        if c is tb:
+            loops = [l for l in q.loop_with_source(tb, lambda s_: True) if bi in l[1]]
+            r.check(len(loops) == 1 and sig(mir.strip(loops[0][3])) in SEQ and sig(q.novers(e[2][0])) == "elem(%s)" % sig(loops[0][3]), "to_bytes/loop", "loops over every op",
+                    "the encoded op %s is not the element of a loop over self.0 (%s)" % (sig(e[2][0]), [sig(l[3]) for l in loops]))
+            buf = sig(q.novers(mir.strip(e[2][1])))
+        else:
+            fe = [(b2, x) for b2, x in q.call_exprs(tb, "for_each") if x[2][1][0] == "closure" and x[2][1][1] == c.nname]
+            r.check(len(fe) == 1 and sig(mir.strip(fe[0][1][2][0])) in SEQ and sig(e[2][0]) == "$2", "to_bytes/loop", "for_each over every op",
+                    "encode is called in a closure that is not for_each over self.0 (%s)" % [sig(x[1])[:80] for x in fe])
+            cap = q.closure_captures(tb, c.nname)
+            be = mir.strip(e[2][1])
+            buf = sig(q.novers(mir.strip(cap.get(be[1], cap.get("_ref__" + be[1].replace("_ref__", ""), ("unknown", ""))) if be[0] == "upvar" else be)))
     rr = q.ret_assignments(tb)
-    r.check(rr and sig(q.novers(rr[0][2])) == "out", "to_bytes/result", "returns the buffer", "to_bytes returns %s" % (sig(rr[0][2]) if rr else "?"))
+    r.check(bool(rr) and buf is not None and sig(q.novers(mir.strip(rr[0][2]))) == buf, "to_bytes/result", "returns the buffer the ops were encoded into", "to_bytes returns %s (ops are encoded into %s)" % (sig(rr[0][2]) if rr else "?", buf))
     h = ctx.body("melvm::Covenant::hash", r)
     rr = q.ret_assignments(h)
     r.check(rr and sig(rr[0][2]) == "tmelcrypt::hash_single(Covenant::to_bytes($1))", "hash", "hash = hash_single(to_bytes())", "hash returns %s" % (sig(rr[0][2]) if rr else "?"))
